@@ -213,8 +213,10 @@ Definition hatom_eqb (a b : hatom) : bool :=
   N.eqb (ha_el a) (ha_el b) && Z.eqb (ha_fc a) (ha_fc b) && Z.eqb (ha_spin a) (ha_spin b)
   && match ha_hint a, ha_hint b with Some x, Some y => Z.eqb x y | None, None => true | _, _ => false end
   && N.eqb (ha_at a) (ha_at b).
+(* Bond.__eq__ compares endpoint SETS: Bond(a, h) and Bond(h, a) are the same bond *)
 Definition hbond_eqb (a b : hbond) : bool :=
-  Nat.eqb (hb_a1 a) (hb_a1 b) && Nat.eqb (hb_a2 a) (hb_a2 b) && N.eqb (hb_bt a) (hb_bt b) && Qeq_bool (hb_fo a) (hb_fo b).
+  ((Nat.eqb (hb_a1 a) (hb_a1 b) && Nat.eqb (hb_a2 a) (hb_a2 b)) || (Nat.eqb (hb_a1 a) (hb_a2 b) && Nat.eqb (hb_a2 a) (hb_a1 b)))
+  && N.eqb (hb_bt a) (hb_bt b) && Qeq_bool (hb_fo a) (hb_fo b).
 Fixpoint all2 {A B} (f : A -> B -> bool) (l : list A) (m : list B) : bool :=
   match l, m with
   | [], [] => true
